@@ -112,20 +112,23 @@ def scanNormal : List Id → Daemon → Daemon × List Event
     let r := handleIdle d i
     if (r.1.c i).closed then seq2 r (scanNormal rest) else r
 
-/-- `call_handlers` for a connection of the eready list, then the eready-removal rule -/
-def callHandlersE (d : Daemon) (i : Id) : Daemon × List Event :=
+/-- `call_handlers` for a connection of the eready list -/
+def callHandlersE0 (d : Daemon) (i : Id) : Daemon × List Event :=
   let c := d.c i
-  let r : Daemon × List Event :=
-    if i ∈ d.cleanup then (d, [])
-    else if c.errFlag then
-      if c.closed then handleIdle d i
-      else seq2 (closeOther d i 1) (fun d => handleIdle d i)
-    else if c.closed then handleIdle d i
-    else if c.readReady then
-      if c.unread then seq2 (readData d i) (fun d => handleIdle d i)
-      else if c.peerClosed then seq2 (closeOther d i (eofCode c.kind)) (fun d => handleIdle d i)
-      else handleIdle (d.set i { c with readReady := false }) i
-    else handleIdle d i
+  if i ∈ d.cleanup then (d, [])
+  else if c.errFlag then
+    if c.closed then handleIdle d i
+    else seq2 (closeOther d i 1) (fun d => handleIdle d i)
+  else if c.closed then handleIdle d i
+  else if c.readReady then
+    if c.unread then seq2 (readData d i) (fun d => handleIdle d i)
+    else if c.peerClosed then seq2 (closeOther d i (eofCode c.kind)) (fun d => handleIdle d i)
+    else handleIdle (d.set i { c with readReady := false }) i
+  else handleIdle d i
+
+/-- … followed by the eready-removal rule of `MHD_epoll` -/
+def callHandlersE (d : Daemon) (i : Id) : Daemon × List Event :=
+  let r := callHandlersE0 d i
   let c' := r.1.c i
   if c'.suspended = false ∧ (c'.closed ∨ c'.readReady = false) then
     ({ r.1 with eready := without r.1.eready i }, r.2)
